@@ -43,6 +43,8 @@ package keeper
 
 //@ func Keeper.EndBlockCIS
 //@ let id := old(k.GetValidatorSetUpdateId(ctx))
+//@ loop 1 invariant [frame] forall key bytes :: fam(key) != FamPrune && fam(key) != FamByConsAddr ==> S[key] == entry(S[key])
+//@ loop 1 invariant [deps] E == old(E) && X == old(X)
 //@ ensures [map] k.GetValsetUpdateBlockHeight(ctx, id).0 == height + 1 && k.GetValsetUpdateBlockHeight(ctx, id).1
 //@ ensures [id] k.GetValidatorSetUpdateId(ctx) == id
 
@@ -249,3 +251,103 @@ package keeper
 //@ ensures [height] result == nil ==> misbehaviour.Header1.GetHeight().EQ(misbehaviour.Header2.GetHeight())
 //@ ensures [min-height] result == nil ==> misbehaviour.Header1.GetHeight().GetRevisionHeight() >= old(k.GetEquivocationEvidenceMinHeight(ctx, consumerId))
 //@ ensures [pure] S == old(S) && E == old(E)
+
+// ---------------------------------------------------------------- C02 / C03: eligibility, Top-N
+
+//@ func Keeper.HasMinPower
+//@ let v := old(k.stakingKeeper.GetValidatorByConsAddr(ctx, providerAddr.Address))
+//@ let va := sdk.ValAddressFromBech32(v.0.GetOperator())
+//@ let pw := old(k.stakingKeeper.GetLastValidatorPower(ctx, va.0))
+//@ ensures [def] result1 == nil ==> v.1 == nil && va.1 == nil && pw.1 == nil && (result0 <==> pw.0 >= minPower)
+//@ ensures [err] v.1 != nil || va.1 != nil || pw.1 != nil ==> result1 != nil && !result0
+//@ ensures [pure] S == old(S) && E == old(E) && X == old(X)
+
+//@ func Keeper.FulfillsMinStake
+//@ let v := old(k.stakingKeeper.GetValidatorByConsAddr(ctx, providerAddr.Address))
+//@ ensures [none] minStake == 0 ==> result0 && result1 == nil
+//@ ensures [def] minStake != 0 && result1 == nil ==> v.1 == nil && (result0 <==> v.0.GetBondedTokens() >= minStake)
+//@ ensures [err] minStake != 0 && v.1 != nil ==> result1 != nil && !result0
+//@ ensures [pure] S == old(S) && E == old(E) && X == old(X)
+
+//@ func Keeper.CanValidateChain
+//@ let opted := old(k.IsOptedIn(ctx, consumerId, providerAddr))
+//@ let hp := old(k.HasMinPower(ctx, providerAddr, minPowerToOptIn))
+//@ let lists := (old(k.IsAllowlistEmpty(ctx, consumerId)) || old(k.IsAllowlisted(ctx, consumerId, providerAddr))) && (old(k.IsDenylistEmpty(ctx, consumerId)) || !old(k.IsDenylisted(ctx, consumerId, providerAddr)))
+//@ ensures [opted] opted ==> result1 == nil && (result0 <==> lists)
+//@ ensures [topn] !opted && topN > 0 && hp.1 == nil ==> result1 == nil && (result0 <==> hp.0 && lists)
+//@ ensures [topn-err] !opted && topN > 0 && hp.1 != nil ==> result1 != nil && !result0
+//@ ensures [not-opted] !opted && topN == 0 ==> result1 == nil && !result0
+//@ ensures [pure] S == old(S) && E == old(E) && X == old(X)
+
+//@ func Keeper.HandleOptOut
+//@ let phase := old(k.GetConsumerPhase(ctx, consumerId))
+//@ let psp := old(k.GetConsumerPowerShapingParameters(ctx, consumerId))
+//@ let v := old(k.stakingKeeper.GetValidatorByConsAddr(ctx, providerAddr.ToSdkConsAddr()))
+//@ let va := sdk.ValAddressFromBech32(v.0.GetOperator())
+//@ let pw := old(k.stakingKeeper.GetLastValidatorPower(ctx, va.0))
+//@ let m := old(k.GetMinimumPowerInTopN(ctx, consumerId))
+//@ ensures [phase] phase != types.CONSUMER_PHASE_LAUNCHED ==> result != nil
+//@ ensures [reject-topn] psp.1 == nil && psp.0.Top_N > 0 && v.1 == nil && va.1 == nil && pw.1 == nil && m.1 && pw.0 >= m.0 ==> result != nil
+//@ ensures [topn-unknown] psp.1 == nil && psp.0.Top_N > 0 && (v.1 != nil || va.1 != nil || pw.1 != nil || !m.1) ==> result != nil
+//@ ensures [error-keeps] result != nil ==> S == old(S)
+//@ ensures [accept] result == nil ==> phase == types.CONSUMER_PHASE_LAUNCHED && psp.1 == nil && (psp.0.Top_N > 0 ==> pw.0 < m.0) && !k.IsOptedIn(ctx, consumerId, providerAddr)
+//@ ensures [frame] forall key bytes :: key != types.OptedInKey(consumerId, providerAddr) ==> S[key] == old(S[key])
+//@ ensures [no-deps] E == old(E) && X == old(X)
+
+//@ func Keeper.OptInTopNValidators
+//@ loop 1 invariant [idx] 0 <= _i && _i <= len(bondedValidators)
+//@ loop 1 invariant [frame] forall key bytes :: fam(key) != fam(types.OptedInKey(consumerId, types.NewProviderConsAddress(nil))) ==> S[key] == old(S[key])
+//@ loop 1 invariant [only-adds] forall key bytes :: old(S[key]) != bnil ==> S[key] != bnil
+//@ loop 1 invariant [same-consumer] forall c string, p types.ProviderConsAddress :: c != consumerId ==> S[types.OptedInKey(c, p)] == old(S[types.OptedInKey(c, p)])
+//@ loop 1 invariant [done] forall j int :: 0 <= j && j < _i && old(k.stakingKeeper.GetLastValidatorPower(ctx, sdk.ValAddressFromBech32(bondedValidators[j].GetOperator()).0)).0 >= minPowerToOptIn ==> k.IsOptedIn(ctx, consumerId, types.NewProviderConsAddress(bondedValidators[j].GetConsAddr().0))
+//@ loop 1 invariant [deps] E == old(E) && X == old(X)
+//@ ensures [all] result == nil ==> forall j int :: 0 <= j && j < len(bondedValidators) && old(k.stakingKeeper.GetLastValidatorPower(ctx, sdk.ValAddressFromBech32(bondedValidators[j].GetOperator()).0)).0 >= minPowerToOptIn ==> k.IsOptedIn(ctx, consumerId, types.NewProviderConsAddress(bondedValidators[j].GetConsAddr().0))
+//@ ensures [only-adds] forall key bytes :: old(S[key]) != bnil ==> S[key] != bnil
+//@ ensures [frame] forall key bytes :: fam(key) != fam(types.OptedInKey(consumerId, types.NewProviderConsAddress(nil))) ==> S[key] == old(S[key])
+//@ ensures [same-consumer] forall c string, p types.ProviderConsAddress :: c != consumerId ==> S[types.OptedInKey(c, p)] == old(S[types.OptedInKey(c, p)])
+//@ ensures [no-deps] E == old(E) && X == old(X)
+
+//@ func Keeper.CreateConsumerValidator
+//@ let va := sdk.ValAddressFromBech32(validator.GetOperator())
+//@ let pw := old(k.stakingKeeper.GetLastValidatorPower(ctx, va.0))
+//@ let ca := validator.GetConsAddr()
+//@ let ak := old(k.GetValidatorConsumerPubKey(ctx, consumerId, types.NewProviderConsAddress(ca.0)))
+//@ let prev := old(k.GetConsumerValidator(ctx, consumerId, types.NewProviderConsAddress(ca.0)))
+//@ ensures [power] result1 == nil ==> result0.Power == pw.0 && pw.1 == nil
+//@ ensures [addr] result1 == nil ==> result0.ProviderConsAddr == ca.0 && ca.1 == nil
+//@ ensures [key-assigned] result1 == nil && ak.1 ==> result0.PublicKey != nil && val(result0.PublicKey) == ak.0
+//@ ensures [key-default] result1 == nil && !ak.1 ==> result0.PublicKey != nil && val(result0.PublicKey) == validator.CmtConsPublicKey().0 && validator.CmtConsPublicKey().1 == nil
+//@ ensures [join-kept] result1 == nil && prev.1 ==> result0.JoinHeight == prev.0.JoinHeight
+//@ ensures [join-new] result1 == nil && !prev.1 ==> result0.JoinHeight == height
+//@ ensures [pure] S == old(S) && E == old(E) && X == old(X)
+
+// ---------------------------------------------------------------- C06: pruning of replaced consumer keys
+
+//@ const FamPrune = fam(types.ConsumerAddrsToPruneV2Key("", 0))
+//@ const FamByConsAddr = fam(types.ValidatorsByConsumerAddrKey("", types.NewConsumerConsAddress(nil)))
+
+//@ func Keeper.ConsumeConsumerAddrsToPrune
+//@ loop 1 invariant [keys-fam] forall j int :: 0 <= j && j < len(keysToDel) ==> fam(keysToDel[j]) == FamPrune
+//@ loop 1 invariant [keys-prefix] forall j int :: 0 <= j && j < len(keysToDel) ==> bpre(types.StringIdWithLenKey(types.ConsumerAddrsToPruneV2KeyPrefix(), consumerId), keysToDel[j])
+//@ loop 1 invariant [keys-due] forall j int :: 0 <= j && j < len(keysToDel) ==> types.ParseStringIdAndTsKey(types.ConsumerAddrsToPruneV2KeyPrefix(), keysToDel[j]).2 == nil && types.ParseStringIdAndTsKey(types.ConsumerAddrsToPruneV2KeyPrefix(), keysToDel[j]).1 <= ts
+//@ loop 2 invariant [idx] 0 <= _i && _i <= len(keysToDel)
+//@ loop 2 invariant [frame] forall key bytes :: fam(key) != FamPrune ==> S[key] == old(S[key])
+//@ loop 2 invariant [only-deletes] forall key bytes :: S[key] == old(S[key]) || S[key] == bnil
+//@ loop 2 invariant [only-consumer] forall key bytes :: S[key] != old(S[key]) ==> bpre(types.StringIdWithLenKey(types.ConsumerAddrsToPruneV2KeyPrefix(), consumerId), key)
+//@ loop 2 invariant [only-due] forall key bytes :: S[key] != old(S[key]) ==> types.ParseStringIdAndTsKey(types.ConsumerAddrsToPruneV2KeyPrefix(), key).2 == nil && types.ParseStringIdAndTsKey(types.ConsumerAddrsToPruneV2KeyPrefix(), key).1 <= ts
+//@ loop 2 invariant [deps] E == old(E) && X == old(X)
+//@ ensures [frame] forall key bytes :: fam(key) != FamPrune ==> S[key] == old(S[key])
+//@ ensures [only-deletes] forall key bytes :: S[key] == old(S[key]) || S[key] == bnil
+//@ ensures [only-consumer] forall key bytes :: S[key] != old(S[key]) ==> bpre(types.StringIdWithLenKey(types.ConsumerAddrsToPruneV2KeyPrefix(), consumerId), key)
+//@ ensures [only-due] forall key bytes :: S[key] != old(S[key]) ==> types.ParseStringIdAndTsKey(types.ConsumerAddrsToPruneV2KeyPrefix(), key).2 == nil && types.ParseStringIdAndTsKey(types.ConsumerAddrsToPruneV2KeyPrefix(), key).1 <= ts
+//@ ensures [no-deps] E == old(E) && X == old(X)
+
+//@ func Keeper.PruneKeyAssignments
+//@ loop 1 invariant [frame] forall key bytes :: fam(key) != FamPrune && fam(key) != FamByConsAddr ==> S[key] == old(S[key])
+//@ loop 1 invariant [only-deletes] forall key bytes :: S[key] == old(S[key]) || S[key] == bnil
+//@ loop 1 invariant [same-consumer] forall c string, a types.ConsumerConsAddress :: c != consumerId ==> S[types.ValidatorsByConsumerAddrKey(c, a)] == old(S[types.ValidatorsByConsumerAddrKey(c, a)])
+//@ loop 1 invariant [deps] E == old(E) && X == old(X)
+//@ ensures [frame] forall key bytes :: fam(key) != FamPrune && fam(key) != FamByConsAddr ==> S[key] == old(S[key])
+//@ ensures [only-deletes] forall key bytes :: S[key] == old(S[key]) || S[key] == bnil
+//@ ensures [same-consumer] forall c string, a types.ConsumerConsAddress :: c != consumerId ==> S[types.ValidatorsByConsumerAddrKey(c, a)] == old(S[types.ValidatorsByConsumerAddrKey(c, a)])
+//@ ensures [no-deps] E == old(E) && X == old(X)
